@@ -156,6 +156,8 @@ def sim_scenario(args):
     cfg = sc.base_config(rng)
     cfg["ctrlB"] = cfg["ctrlA"] if rng.random() < 0.7 else cfg["ctrlB"]   # mostly conflicting roles: forces a switch
     cfg["anyorder"] = False
+    if rng.random() < 0.4:
+        cfg["nat"] = rng.choice(["A", "B"])      # peer-reflexive local candidates and discovered pairs
     s = None
     bad = []
     nlists = 0
